@@ -156,6 +156,7 @@ Section Levels.
       levels_ok (map nname (nodes_vec g)) ls.
   Proof.
     intros lf sf g weighted res thr perms ls tie W H. unfold louvain_partitions_t in H.
+    destruct (negative_weight_guard g weighted); [discriminate|].
     apply bind_ok in H. destruct H as [gu [Hgu H]].
     apply bind_ok in H. destruct H as [mod0 [_ H]].
     apply bind_ok in H. destruct H as [m [_ H]].
